@@ -1085,6 +1085,8 @@ func run(sel int, in []int64) []int64 {
 	case 5:
 		m, pops := exec5(dec5(in))
 		return cat(tag(1), m, tag(2), eList(pops))
+	case 6:
+		return run6(in)
 	case 7:
 		return run7(in)
 	case 8:
@@ -1153,6 +1155,8 @@ func laws(sel int, in, got []int64, law func(lsel int, lin []int64, sig string))
 		}
 	case 5:
 		law(105, cat(in, got[1:]), "")
+	case 6:
+		laws6(in, got, law)
 	case 7:
 		mode, ops := dec7(in)
 		for _, st := range exec7(mode, ops) {
@@ -1479,6 +1483,8 @@ func gen(rng *vh.Rng, n int, emit func(id string, sel int, in []int64, kind stri
 		}
 		emit(fmt.Sprintf("realcmp-r%d-%d", role, i), 5, in, kind, len(ks) >= 3 && c1 >= 1, nil)
 	}
+	// (f2) QueueOrderFn / VictimQueueOrderFn of the real proportion, capacity and drf plugins
+	gen6(rng.Fork(), n/8+2, emit)
 	// (g) priority queue histories
 	r = rng.Fork()
 	for i := 0; i < n/3+1; i++ {
